@@ -220,3 +220,29 @@ func VP_C16_write_history() {
 	vp.Assert(string(c.out) == string(ref), "frame bytes == little-endian reference layout (after an earlier failed write)")
 	vp.Cover("end")
 }
+
+// responses up to the size limit: the server's RespCmd with 0, 1, 4085 and 4086
+// bytes (declared length up to 4096) is received by Resp verbatim, nothing is
+// left on the wire afterwards, and the next command/response pair still works.
+func VP_C16_resp_sizes() {
+	a, b := vpPipe()
+	id := vp.Int32()
+	cli := &RCONConn{Conn: a, ReqID: id}
+	srv := &RCONConn{Conn: b, ReqID: id}
+	n := []int{0, 1, MaxRCONPackageSize - 11, MaxRCONPackageSize - 10}[vp.Choice(4)]
+	resp := make([]byte, n)
+	if n > 0 {
+		resp[0], resp[n-1] = vp.Byte(), vp.Byte()
+	}
+	vp.Assert(srv.RespCmd(string(resp)) == nil, "RespCmd")
+	got, err := cli.Resp()
+	vp.Assert(err == nil && got == string(resp), "matching response accepted verbatim")
+	vp.Assert(a.unread() == 0, "stream fully consumed")
+	vp.Assert(cli.Cmd("x") == nil, "Cmd")
+	c, err := srv.AcceptCmd()
+	vp.Assert(err == nil && c == "x", "command arrives verbatim")
+	vp.Assert(srv.RespCmd("y") == nil, "RespCmd")
+	got, err = cli.Resp()
+	vp.Assert(err == nil && got == "y", "the next response is the next command's")
+	vp.Cover("end")
+}
